@@ -124,9 +124,8 @@ def rand_z2_index(
         d1 = d - d0
 
     elif subsizes == "minimal":
-        # all in zero charge sector
-        d0 = d
-        d1 = 0
+        # all in zero charge sector, n.b. sizes must be strictly positive
+        return sr.BlockIndex(chargemap={0: d}, dual=dual)
 
     else:
         # sizes given explicitly
